@@ -362,7 +362,9 @@ func runC08(r *Report) {
 				// handshake the request carries 0 and the server allocates the id), on this node
 				if info, ok := stripValue(Arg(rg, 1)).(*ssa.Alloc); ok {
 					want := map[string]func(o string) bool{
-						"ClientID":     func(o string) bool { return strings.Contains(o, "GetClientID") && !strings.Contains(o, "HandshakeRequest") },
+						"ClientID": func(o string) bool {
+							return strings.Contains(o, "GetClientID") && !strings.Contains(o, "HandshakeRequest")
+						},
 						"ConnectionID": func(o string) bool { return strings.Contains(o, "StreamPacket.ConnectionID") },
 						"NodeID":       func(o string) bool { return strings.Contains(o, "SessionManager.nodeID") },
 					}
